@@ -20,7 +20,8 @@ Record case := {
   c_docs : list (string * list vmeth);         (* the DID documents the VDR serves (the one the kid names) *)
   c_sig0 : string;                             (* a signature segment whose meaning the harness knows ... *)
   c_sigv0 : sigv;                              (* ... and that meaning *)
-  c_payobj : bool;                             (* PayloadToMap succeeds on the payload *)
+  c_payobj : bool;                             (* what the real jwt.PayloadToMap said about the payload bytes: compared
+                                                  with the model's claims_obj on every case *)
   c_obs : obs
 }.
 
@@ -52,6 +53,17 @@ Definition model_canon (tok : list N) : option (list N) :=
   | _ => None
   end.
 
+(* the payload bytes jwt.Parse would hand to PayloadToMap: the detached payload when one is given, otherwise the
+   (leniently) decoded middle segment *)
+Definition case_payload (c : case) : option (list N) :=
+  match c_det c with
+  | Some (String a r) => Some (chars (String a r))
+  | _ => match split_dot (chars (c_tok c)) with
+         | [_; pseg; _] => b64dec pseg
+         | _ => None
+         end
+  end.
+
 Definition stage_eqb (a b : stage) : bool :=
   match a, b with
   | StSplit, StSplit | StHdr, StHdr | StPay, StPay | StSigIn, StSigIn | StSigDec, StSigDec
@@ -66,7 +78,7 @@ Definition run_case (v : variant) (c : case) : out :=
   let det := option_map chars (c_det c) in
   match c_entry c with
   | EJws => parse_jws ph rs sm v (c_cfg c) det (chars (c_tok c))
-  | EJwt ig => parse_jwt ph rs sm (fun _ => c_payobj c) v (c_cfg c) ig det (chars (c_tok c))
+  | EJwt ig => parse_jwt ph rs sm claims_obj v (c_cfg c) ig det (chars (c_tok c))
   end.
 
 Definition check_case (c : case) : bool :=
@@ -80,6 +92,11 @@ Definition check_case (c : case) : bool :=
         real decoder rejected the header, and then the model must not have decoded an object either *)
      (match model_canon (chars (c_tok c)) with
       | Some m => leqb m (case_canon c)
+      | None => true
+      end)
+  && (* claims decoding: the model's claims_obj on the payload bytes equals the real PayloadToMap's verdict *)
+     (match case_payload c with
+      | Some p => Bool.eqb (claims_obj p) (c_payobj c)
       | None => true
       end).
 
